@@ -1,2 +1,285 @@
-From Coq Require Import ZArith List Bool Lia.
+(* ISO-DEP: elementary facts about the reader step machine and the card.
+   - list facts (take/slice/drop) behind chaining
+   - what the card does with each kind of block (from its PCB classification)
+   - what the reader does with each kind of answer
+   - every block the reader emits fits the frame size (isodep_block_bound, reader side) *)
+From Coq Require Import ZArith List Bool Lia ZifyBool.
 From NV Require Import Base.Result Base.Bytes Model.IsoDep.
+Import ListNotations.
+Open Scope Z_scope.
+Ltac Zify.zify_post_hook ::= Z.to_euclidean_division_equations.
+
+(* ---------------------------------------------------------------- block numbers *)
+Definition bit (x : Z) : Prop := x = 0 \/ x = 1.
+
+Lemma flip_bit b : bit b -> bit (flip b).
+Proof. intros [-> | ->]; cbv; auto. Qed.
+Lemma toggle_flip b : bit b -> toggle b = flip b.
+Proof. intros [-> | ->]; reflexivity. Qed.
+Lemma flip_flip b : bit b -> flip (flip b) = b.
+Proof. intros [-> | ->]; reflexivity. Qed.
+Lemma flip_neq b : bit b -> flip b <> b.
+Proof. intros [-> | ->]; cbv; discriminate. Qed.
+
+(* ---------------------------------------------------------------- lists *)
+Lemma firstn_add {A} (l : list A) a b : firstn a l ++ firstn b (skipn a l) = firstn (a + b) l.
+Proof.
+  revert l. induction a as [|a IH]; intro l; [reflexivity|].
+  destruct l as [|x l]; [cbn; rewrite firstn_nil; reflexivity|].
+  cbn [Nat.add firstn skipn app]. rewrite <- IH. reflexivity.
+Qed.
+
+Lemma slice_at (cmd : bytes) off m : 0 <= off -> 0 <= m ->
+  slice cmd off (off + m) = firstn (Z.to_nat m) (skipn (Z.to_nat off) cmd).
+Proof.
+  intros. unfold slice. rewrite (Z.max_r 0 off) by lia.
+  replace (Z.max 0 (off + m - off)) with m by lia. reflexivity.
+Qed.
+Lemma take_slice (cmd : bytes) off m : 0 <= off -> 0 <= m ->
+  take off cmd ++ slice cmd off (off + m) = take (off + m) cmd.
+Proof. intros. rewrite slice_at by lia. unfold take. rewrite firstn_add. f_equal. lia. Qed.
+Lemma take_all {A} (l : list A) n : len l <= n -> take n l = l.
+Proof. unfold take, len. intro. apply firstn_all2. lia. Qed.
+Lemma take_0 {A} (l : list A) : take 0 l = [].
+Proof. reflexivity. Qed.
+Lemma len_slice_le (cmd : bytes) off m : 0 <= off -> 0 <= m -> len (slice cmd off (off + m)) <= m.
+Proof. intros. rewrite slice_at by lia. unfold len. rewrite firstn_length. lia. Qed.
+Lemma take_drop {A} n (l : list A) : take n l ++ drop n l = l.
+Proof. apply firstn_skipn. Qed.
+Lemma len_take_le {A} n (l : list A) : 0 <= n -> len (take n l) <= n.
+Proof. intro. unfold len, take. rewrite firstn_length. lia. Qed.
+Lemma len_drop {A} n (l : list A) : 0 <= n -> len (drop n l) = Z.max 0 (len l - n).
+Proof. intro. unfold len, drop. rewrite skipn_length. lia. Qed.
+Lemma len_pos_nil {A} (l : list A) : (len l >? 0) = false -> l = [].
+Proof. destruct l; [reflexivity|]. rewrite len_cons. pose proof (len_nonneg l). lia. Qed.
+Lemma len_pos_cons {A} (l : list A) : (len l >? 0) = true -> l <> [].
+Proof. intros H ->. cbn in H. discriminate. Qed.
+Lemma nonnil_len {A} (l : list A) : l <> [] -> 0 < len l.
+Proof. destruct l; [congruence|]. rewrite len_cons. pose proof (len_nonneg l). lia. Qed.
+
+(* ---------------------------------------------------------------- the card *)
+Definition same_core (c c' : picc) : Prop :=
+  bn c' = bn c /\ rxbuf c' = rxbuf c /\ txrest c' = txrest c /\ execs c' = execs c.
+
+(* the card has sent [blk], possibly preceded by S(WTX) requests one of which is outstanding *)
+Inductive emitted (blk : bytes) (c : picc) : Prop :=
+| Em_direct : last c = blk -> pend c = None -> emitted blk c
+| Em_wtx w ws : last c = [242; w] -> pend c = Some (w, ws, blk) -> emitted blk c.
+
+Definition plan_weight (pl : list (list Z)) : Z := fold_right (fun ws a => len ws + a) 0 pl.
+(* S(WTX) responses the card still expects *)
+Definition wtx_weight (c : picc) : Z :=
+  plan_weight (plan c) + match pend c with Some (_, ws, _) => 1 + len ws | None => 0 end.
+
+Lemma plan_weight_nonneg pl : 0 <= plan_weight pl.
+Proof. induction pl as [|ws pl IH]; cbn; [lia|]. pose proof (len_nonneg ws). lia. Qed.
+Lemma wtx_weight_nonneg c : 0 <= wtx_weight c.
+Proof. unfold wtx_weight. pose proof (plan_weight_nonneg (plan c)).
+  destruct (pend c) as [[[w ws] b]|]; [pose proof (len_nonneg ws)|]; lia. Qed.
+
+Lemma picc_emit_spec c0 blk :
+  pend c0 = None ->
+  exists c', picc_emit c0 blk = (c', Some (last c')) /\ same_core c0 c' /\ emitted blk c' /\
+             wtx_weight c' <= wtx_weight c0.
+Proof.
+  intro Hp. unfold picc_emit, wtx_weight. rewrite Hp.
+  destruct (plan c0) as [|ws pl] eqn:Epl; cbn [tl].
+  - eexists. split; [reflexivity|]. cbn. split; [repeat split|]. split; [apply Em_direct; reflexivity|]. lia.
+  - destruct ws as [|w ws'].
+    + eexists. split; [reflexivity|]. cbn [last bn rxbuf txrest execs pend plan]. split; [repeat split|].
+      split; [apply Em_direct; reflexivity|]. cbn. lia.
+    + eexists. split; [reflexivity|]. cbn [last bn rxbuf txrest execs pend plan]. split; [repeat split|].
+      split; [eapply Em_wtx; reflexivity|]. cbn [plan_weight fold_right]. rewrite len_cons. lia.
+Qed.
+
+Section Card.
+Variable app : Z -> bytes -> bytes.
+Variable kc : ccfg.
+
+Lemma picc_iblock_chained c pcb inf :
+  Z.land pcb 238 = 2 -> Z.land pcb 16 <> 0 -> len inf + 3 <= cfsc kc ->
+  picc_absorb app kc c (pcb :: inf) =
+  picc_emit {| bn := flip (bn c); last := last c; rxbuf := rxbuf c ++ inf; txrest := []; pend := None;
+               plan := plan c; execs := execs c |} [Z.lor 162 (flip (bn c))].
+Proof.
+  intros H1 H2 H3. unfold picc_absorb.
+  replace (len (pcb :: inf) + 2 >? cfsc kc) with false by (rewrite len_cons; lia).
+  rewrite H1. change (2 =? 2) with true. cbv iota.
+  replace (Z.land pcb 16 =? 0) with false by lia. reflexivity.
+Qed.
+
+Lemma picc_iblock_final c pcb inf :
+  Z.land pcb 238 = 2 -> Z.land pcb 16 = 0 -> len inf + 3 <= cfsc kc ->
+  picc_absorb app kc c (pcb :: inf) =
+  let apdu := rxbuf c ++ inf in
+  let '(ib, rest) := next_iblock kc (flip (bn c)) (app (len (execs c)) apdu) in
+  picc_emit {| bn := flip (bn c); last := last c; rxbuf := []; txrest := rest; pend := None;
+               plan := plan c; execs := execs c ++ [apdu] |} ib.
+Proof.
+  intros H1 H2 H3. unfold picc_absorb.
+  replace (len (pcb :: inf) + 2 >? cfsc kc) with false by (rewrite len_cons; lia).
+  rewrite H1. change (2 =? 2) with true. cbv iota.
+  rewrite H2. reflexivity.
+Qed.
+
+(* rule 11 *)
+Lemma picc_rblock_same c pcb :
+  Z.land pcb 238 = 162 -> Z.land pcb 1 = bn c -> last c <> [] -> 3 <= cfsc kc ->
+  picc_absorb app kc c [pcb] = (c, Some (last c)).
+Proof.
+  intros H1 H2 H3 H4. unfold picc_absorb.
+  replace (len [pcb] + 2 >? cfsc kc) with false by (cbn; lia).
+  rewrite H1. change (162 =? 2) with false. change (162 =? 162) with true. cbv iota.
+  change (len [] =? 0) with true. cbn [negb]. rewrite H2, Z.eqb_refl.
+  destruct (last c); [congruence|reflexivity].
+Qed.
+
+(* rule 12 *)
+Lemma picc_nak_other c pcb :
+  Z.land pcb 238 = 162 -> Z.land pcb 1 <> bn c -> Z.land pcb 16 <> 0 -> pend c = None -> 3 <= cfsc kc ->
+  picc_absorb app kc c [pcb] =
+  ({| bn := bn c; last := [Z.lor 162 (bn c)]; rxbuf := rxbuf c; txrest := txrest c; pend := None;
+      plan := plan c; execs := execs c |}, Some [Z.lor 162 (bn c)]).
+Proof.
+  intros H1 H2 H3 H4 H5. unfold picc_absorb.
+  replace (len [pcb] + 2 >? cfsc kc) with false by (cbn; lia).
+  rewrite H1. change (162 =? 2) with false. change (162 =? 162) with true. cbv iota.
+  change (len [] =? 0) with true. cbn [negb].
+  replace (Z.land pcb 1 =? bn c) with false by lia.
+  replace (Z.land pcb 16 =? 0) with false by lia. cbn [negb]. rewrite H4. reflexivity.
+Qed.
+
+(* rules E and 13 *)
+Lemma picc_ack_other c pcb :
+  Z.land pcb 238 = 162 -> Z.land pcb 1 <> bn c -> Z.land pcb 16 = 0 -> pend c = None -> txrest c <> [] ->
+  3 <= cfsc kc ->
+  picc_absorb app kc c [pcb] =
+  let '(ib, rest) := next_iblock kc (flip (bn c)) (txrest c) in
+  picc_emit {| bn := flip (bn c); last := last c; rxbuf := rxbuf c; txrest := rest; pend := None;
+               plan := plan c; execs := execs c |} ib.
+Proof.
+  intros H1 H2 H3 H4 H5 H6. unfold picc_absorb.
+  replace (len [pcb] + 2 >? cfsc kc) with false by (cbn; lia).
+  rewrite H1. change (162 =? 2) with false. change (162 =? 162) with true. cbv iota.
+  change (len [] =? 0) with true. cbn [negb].
+  replace (Z.land pcb 1 =? bn c) with false by lia.
+  rewrite H3. change (0 =? 0) with true. cbn [negb]. rewrite H4.
+  destruct (txrest c); [congruence|reflexivity].
+Qed.
+
+(* rule 3: the S(WTX) response *)
+Lemma picc_wtx_response c w ws nxt :
+  pend c = Some (w, ws, nxt) -> 4 <= cfsc kc ->
+  exists c', picc_absorb app kc c [242; w] = (c', Some (last c')) /\ same_core c c' /\ emitted nxt c' /\
+             wtx_weight c' < wtx_weight c.
+Proof.
+  intros Hp Hf. unfold picc_absorb.
+  replace (len [242; w] + 2 >? cfsc kc) with false by (cbn; lia).
+  change (Z.land 242 238 =? 2) with false. change (Z.land 242 238 =? 162) with false.
+  change (242 =? 242) with true. cbv iota. rewrite Hp, Z.eqb_refl.
+  unfold wtx_weight. rewrite Hp.
+  destruct ws as [|w2 ws'].
+  - eexists. split; [reflexivity|]. cbn [last bn rxbuf txrest execs pend plan]. split; [repeat split|].
+    split; [apply Em_direct; reflexivity|]. cbn. lia.
+  - eexists. split; [reflexivity|]. cbn [last bn rxbuf txrest execs pend plan]. split; [repeat split|].
+    split; [eapply Em_wtx; reflexivity|]. rewrite len_cons. lia.
+Qed.
+
+Lemma emitted_last_nonnil blk c : emitted blk c -> blk <> [] -> last c <> [].
+Proof. intros [H _|w ws H _] Hb; rewrite H; [exact Hb|discriminate]. Qed.
+Lemma emitted_pend blk c w ws nxt : emitted blk c -> pend c = Some (w, ws, nxt) -> nxt = blk.
+Proof. intros [_ H|w' ws' _ H] Hp; rewrite H in Hp; [discriminate|]. inversion Hp; reflexivity. Qed.
+Lemma emitted_core blk c : emitted blk c ->
+  (last c = blk /\ pend c = None) \/ (exists w ws, last c = [242; w] /\ pend c = Some (w, ws, blk)).
+Proof. intros [H1 H2|w ws H1 H2]; [left; auto|right; eauto]. Qed.
+End Card.
+
+(* ---------------------------------------------------------------- the reader *)
+Lemma idx0 b0 (inf : bytes) : idx (b0 :: inf) 0 = Ok b0.
+Proof. reflexivity. Qed.
+Lemma idx1 b0 b1 (inf : bytes) : idx (b0 :: b1 :: inf) 1 = Ok b1.
+Proof. reflexivity. Qed.
+Lemma len_cons_eqb0 {A} (x : A) l : (len (x :: l) =? 0) = false.
+Proof. rewrite len_cons. pose proof (len_nonneg l). lia. Qed.
+
+Definition mkp (pn : Z) (f : phase) : pcd := {| pni := pn; ph := f |}.
+
+Section Reader.
+Variable k : cfg.
+Variable cmd : bytes.
+Hypothesis Hf1 : fix_wtx_try k = true.
+Hypothesis Hf2 : fix_wtx_chain k = true.
+
+Lemma send_timeout pn off i d a : a = ATimeout \/ a = ATxErr ->
+  pcd_absorb k cmd (mkp pn (PSend off i d)) a =
+  mkp pn (if i <=? n_nak k then PSend off (i + 1) [Z.lor 178 pn]
+          else tagerr (match a with ATimeout => E_TIMEOUT | _ => E_RECEIVE end)).
+Proof. intros [-> | ->]; reflexivity. Qed.
+
+Lemma recv_timeout pn i d rsp a : a = ATimeout \/ a = ATxErr ->
+  pcd_absorb k cmd (mkp pn (PRecv i d rsp)) a =
+  mkp pn (if i <=? n_ack k then PRecv (i + 1) [Z.lor 162 pn] rsp
+          else tagerr (match a with ATimeout => E_TIMEOUT | _ => E_RECEIVE end)).
+Proof. intros [-> | ->]; reflexivity. Qed.
+
+Lemma send_rx_wtx pn off i d w :
+  pcd_absorb k cmd (mkp pn (PSend off i d)) (ARx [242; w]) = mkp pn (PSend off i [242; w]).
+Proof. unfold pcd_absorb. cbn [ph pni mkp]. rewrite len_cons_eqb0, idx0, Hf1. reflexivity. Qed.
+
+Lemma recv_rx_wtx pn i d rsp w :
+  pcd_absorb k cmd (mkp pn (PRecv i d rsp)) (ARx [242; w]) = mkp pn (PRecv i [242; w] rsp).
+Proof. unfold pcd_absorb. cbn [ph pni mkp]. rewrite len_cons_eqb0, idx0, Hf2. reflexivity. Qed.
+
+(* R(ACK) with the other block number: retransmit within the budget, else block number error *)
+Lemma send_rx_rack_other pn off i d : bit pn ->
+  pcd_absorb k cmd (mkp pn (PSend off i d)) (ARx [Z.lor 162 (flip pn)]) =
+  if (if fix_rack k then i <=? n_nak k + 1 else true)
+  then mkp pn (PSend off (i + 1) (iblock k cmd pn off))
+  else mkp pn (tagerr E_PROTOCOL).
+Proof.
+  intro Hb. unfold pcd_absorb. cbn [ph pni mkp]. rewrite len_cons_eqb0, idx0, Hf1.
+  destruct Hb as [-> | ->]; cbn [flip Z.eqb]; change (Z.lor 162 1) with 163; change (Z.lor 162 0) with 162.
+  - change (is_wtx 163) with false. change (is_rack_other 0 163) with true. cbn [andb].
+    destruct (if fix_rack k then i <=? n_nak k + 1 else true); reflexivity.
+  - change (is_wtx 162) with false. change (is_rack_other 1 162) with true. cbn [andb].
+    destruct (if fix_rack k then i <=? n_nak k + 1 else true); reflexivity.
+Qed.
+
+(* R(ACK) with the reader's block number while the reader is chaining *)
+Lemma send_rx_ack pn off i d : bit pn -> more_at k cmd off = true ->
+  pcd_absorb k cmd (mkp pn (PSend off i d)) (ARx [Z.lor 162 pn]) =
+  mkp (flip pn) (PSend (off + miu k) 1 (iblock k cmd (flip pn) (off + miu k))).
+Proof.
+  intros Hb Hm. unfold pcd_absorb. cbn [ph pni mkp]. rewrite len_cons_eqb0, idx0, Hf1.
+  destruct Hb as [-> | ->]; change (Z.lor 162 1) with 163; change (Z.lor 162 0) with 162.
+  - change (is_wtx 162) with false. change (is_rack_other 0 162) with false. cbn [andb].
+    unfold after_wtx. change (negb (Z.land 162 1 =? 0)) with false. cbv iota. rewrite Hm.
+    change (Z.land 162 254 =? 162) with true. reflexivity.
+  - change (is_wtx 163) with false. change (is_rack_other 1 163) with false. cbn [andb].
+    unfold after_wtx. change (negb (Z.land 163 1 =? 1)) with false. cbv iota. rewrite Hm.
+    change (Z.land 163 254 =? 162) with true. reflexivity.
+Qed.
+
+(* the first response I-block, answering the last command block *)
+Lemma send_rx_iblock pn off i d ch (chunk : bytes) : bit pn -> more_at k cmd off = false -> bit ch ->
+  pcd_absorb k cmd (mkp pn (PSend off i d)) (ARx (Z.lor (Z.lor 2 (16 * ch)) pn :: chunk)) =
+  mkp (flip pn) (if ch =? 1 then PRecv 1 [Z.lor 162 (flip pn)] chunk else PDone (Ok chunk)).
+Proof.
+  intros Hb Hm Hc. unfold pcd_absorb. cbn [ph pni mkp]. rewrite len_cons_eqb0, idx0, Hf1.
+  destruct Hb as [-> | ->], Hc as [-> | ->]; cbn [Z.mul Z.lor Pos.lor Z.eqb Pos.eqb tl];
+    match goal with |- context [is_wtx ?x] => change (is_wtx x) with false end;
+    match goal with |- context [is_rack_other ?a ?x] => change (is_rack_other a x) with false end;
+    cbn [andb]; unfold after_wtx; rewrite Hm; reflexivity.
+Qed.
+
+(* a further response I-block, answering R(ACK) *)
+Lemma recv_rx_iblock pn i d rsp ch (chunk : bytes) : bit pn -> bit ch ->
+  pcd_absorb k cmd (mkp pn (PRecv i d rsp)) (ARx (Z.lor (Z.lor 2 (16 * ch)) pn :: chunk)) =
+  mkp (flip pn) (if ch =? 1 then PRecv 1 [Z.lor 162 (flip pn)] (rsp ++ chunk) else PDone (Ok (rsp ++ chunk))).
+Proof.
+  intros Hb Hc. unfold pcd_absorb. cbn [ph pni mkp]. rewrite len_cons_eqb0, idx0, Hf2.
+  destruct Hb as [-> | ->], Hc as [-> | ->]; cbn [Z.mul Z.lor Pos.lor Z.eqb Pos.eqb tl];
+    match goal with |- context [is_wtx ?x] => change (is_wtx x) with false end;
+    cbn [andb]; reflexivity.
+Qed.
+End Reader.
